@@ -218,6 +218,80 @@ def fastfmt_jobs(tier):
     return js
 
 
+# ---- whole-row SSE2 composite routines (harness/C02/sse2_composite.c)
+# geometry per destination bpp: (width, dest x, src x, mask x, row pixels): head 1 pixel, one vector body, tail 1 pixel
+G32 = (6, 3, 1, 2, 12)        # 4-pixel body
+G32W = (18, 3, 1, 2, 24)      # 16-pixel body (src_x888_8888)
+G16 = (10, 7, 1, 2, 24)       # 8-pixel body
+G8 = (18, 15, 1, 2, 48)       # 16-pixel body
+G8A = (26, 11, 1, 2, 48)      # add_8_8: 1 byte head, combiner on 6 words at word phase 3 (1 + 4 + 1), 1 byte tail
+# routine: (op, mode, source format | "solid", mask format | "solid" | None, destination format, channels, geometry, ghost pixels
+#           (None = symbolic), quick-tier channels)
+S2C = {
+    "sse2_composite_over_n_8888":         ("OVER", 0, "solid", None, "a8r8g8b8", (0, 1, 2, 3), G32, None, (3,)),
+    "sse2_composite_over_8888_8888":      ("OVER", 0, "a8r8g8b8", None, "a8r8g8b8", (0, 1, 2, 3), G32, None, ()),
+    "sse2_composite_add_8888_8888":       ("ADD", 0, "a8r8g8b8", None, "a8r8g8b8", (0, 1, 2, 3), G32, None, (1,)),
+    "sse2_composite_add_n_8888":          ("ADD", 0, "solid", None, "a8r8g8b8", (0, 1, 2, 3), G32, None, ()),
+    "sse2_composite_add_8_8":             ("ADD", 0, "a8", None, "a8", (3,), G8A, None, (3,)),
+    "sse2_composite_add_n_8":             ("ADD", 0, "solid", None, "a8", (3,), G8, None, ()),
+    "sse2_composite_in_8_8":              ("IN", 0, "a8", None, "a8", (3,), G8, None, ()),
+    "sse2_composite_in_n_8":              ("IN", 0, "solid", None, "a8", (3,), G8, None, ()),
+    "sse2_composite_src_x888_8888":       ("SRC", 0, "x8r8g8b8", None, "a8r8g8b8", (0, 1, 2, 3), G32W, None, (3,)),
+    "sse2_composite_src_x888_0565":       ("SRC", 0, "x8r8g8b8", None, "r5g6b5", (0, 1, 2), G16, None, (1,)),
+    "sse2_composite_over_n_0565":         ("OVER", 0, "solid", None, "r5g6b5", (0, 1, 2), G16, None, ()),
+    "sse2_composite_over_8888_0565":      ("OVER", 0, "a8r8g8b8", None, "r5g6b5", (0, 1, 2), G16, None, ()),
+    "sse2_composite_over_reverse_n_8888": ("OVER_REVERSE", 0, "solid", None, "a8r8g8b8", (0, 1, 2, 3), G32, None, ()),
+    "sse2_composite_over_n_8_8888":       ("OVER", 1, "solid", "a8", "a8r8g8b8", (1, 3), G32, (0, 2, 5), ()),
+    "sse2_composite_add_n_8_8888":        ("ADD", 1, "solid", "a8", "a8r8g8b8", (1, 3), G32, (0, 2, 5), ()),
+    "sse2_composite_src_n_8_8888":        ("SRC", 1, "solid", "a8", "a8r8g8b8", (1, 3), G32, (0, 2, 5), ()),
+    "sse2_composite_add_n_8_8":           ("ADD", 1, "solid", "a8", "a8", (3,), G8, None, ()),
+    "sse2_composite_in_n_8_8":            ("IN", 1, "solid", "a8", "a8", (3,), G8, None, ()),
+    "sse2_composite_over_8888_8_8888":    ("OVER", 1, "a8r8g8b8", "a8", "a8r8g8b8", (1, 3), G32, (0, 2, 5), ()),
+    "sse2_composite_over_x888_8_8888":    ("OVER", 1, "x8r8g8b8", "a8", "a8r8g8b8", (1, 3), G32, (0, 2, 5), ()),
+    "sse2_composite_over_8888_n_8888":    ("OVER", 1, "a8r8g8b8", "solid", "a8r8g8b8", (1, 3), G32, (0, 2, 5), ()),
+    "sse2_composite_over_x888_n_8888":    ("OVER", 1, "x8r8g8b8", "solid", "a8r8g8b8", (1, 3), G32, (0, 2, 5), ()),
+    "sse2_composite_over_n_8_0565":       ("OVER", 1, "solid", "a8", "r5g6b5", (1,), G16, (0, 4, 9), ()),
+}
+S2C_TIMEOUT = {}
+
+
+def sse2c_jobs(tier):
+    js = []
+    quick = tier == "quick"
+    for fn, (op, mode, sfmt, mfmt, dfmt, chans, geo, ks, qch) in S2C.items():
+        w, dx, sx, mx, row = geo
+        for ch in tuple(chans) + (4,):
+            if quick and ch not in qch:
+                continue
+            for k in ((None,) if (ks is None or ch == 4) else ks):
+                d = {"VC_FN": fn, "VC_PIXOP": "PIXMAN_OP_" + op, "VC_OP": SPOP[op], "VC_MODE": mode, "VC_CH": ch, "VC_W": w, "VC_DX": dx,
+                     "VC_SX": sx, "VC_MX": mx, "VC_ROW": row, "VC_DFMT": dfmt, "VC_SFMT": "a8r8g8b8" if sfmt == "solid" else sfmt}
+                if sfmt == "solid":
+                    d["VC_SOLID"] = None
+                if mfmt == "solid":
+                    d["VC_MSOLID"] = None
+                    d["VC_MFMT"] = "a8r8g8b8"
+                elif mfmt:
+                    d["VC_MFMT"] = mfmt
+                if k is not None:
+                    d["VC_K"] = k
+                stubs = []
+                if "solid" in (sfmt, mfmt):
+                    stubs.append("%s: _pixman_image_get_solid replaced by a stub returning the symbolic colour" % fn)
+                if fn in ("sse2_composite_add_n_8888", "sse2_composite_add_n_8", "sse2_composite_in_n_8"):
+                    stubs.append("%s: pixman_fill (colour 0 / ~0 shortcut) replaced by a per-pixel store of the filler (C19 covers pixman_fill)" % fn)
+                js.append(Job("sse2c.%s%s.ch%d" % (fn, "" if k is None else ".k%d" % k, ch), "C02/sse2_composite.c", defines=d,
+                              unwind=row + 2, cbmc_flags=PC, kind="bounded",
+                              bound="width %d, height 1, destination x %d (16-byte phase fixed: 1 head pixel, one vector body, 1 tail pixel), source x %d, mask x %d%s"
+                                    % (w, dx, sx, mx, "" if k is None else ", ghost pixel %d" % k),
+                              functions=[fn, "_pixman_implementation_create_sse2"], extra_sources=RL,
+                              domain="%s %s, %s, %s: every pixel value, ghost pixel %s; %s"
+                                     % (op, sfmt, mfmt or "-", dfmt, "symbolic" if k is None else "fixed",
+                                        "field of channel %d == NARROW (C01 spec (WIDEN src, WIDEN mask, WIDEN dest))" % ch if ch < 4 else "frame"),
+                              assumptions=MODEL_TRUST + stubs, timeout=S2C_TIMEOUT.get((fn, ch), 3600), min_props=2))
+    return js
+
+
 # ---------------------------------------------------------------- fast-path table scan (evidence)
 def scan_tables():
     """every entry of sse2_fast_paths / c_fast_paths in the source text, with the status this property gives its routine"""
@@ -288,7 +362,7 @@ def selftest_job():
 
 
 def jobs(tier):
-    js = dispatch_jobs(tier) + sse2_jobs(tier) + fastpath_jobs(tier) + fastfmt_jobs(tier)
+    js = dispatch_jobs(tier) + sse2_jobs(tier) + fastpath_jobs(tier) + fastfmt_jobs(tier) + sse2c_jobs(tier)
     js.append(table_job())
     if os.path.exists(os.path.join(VERIF, "harness", "C02", "models_selftest.c")):
         js.append(selftest_job())
